@@ -1234,7 +1234,7 @@ func c12PairCase(r *Rng) Case {
 }
 
 // exhaustive: every ASCII byte b as a one-byte pattern, every ASCII byte c as the line "c" and as the
-// line "c b" (candidate before the real literal); both modes. Per the model, ignore-case matches
+// line "c b" (candidate before the real literal), ignore-case. Per the model, ignore-case matches
 // at c iff lower(b) = lower(c).
 func c12Sweep() []Case {
 	var cases []Case
@@ -1243,7 +1243,7 @@ func c12Sweep() []Case {
 		for c := 0; c < 128; c++ {
 			lines = append(lines, []byte{byte(c)}, []byte{byte(c), byte(b)})
 		}
-		cs := c12MkCase(2, string([]byte{byte(b)}), lines)
+		cs := c12MkCase(1, string([]byte{byte(b)}), lines)
 		cs.Tags = append(cs.Tags, "sweep(one-byte literal x candidate byte)")
 		cases = append(cases, cs)
 	}
@@ -1424,7 +1424,7 @@ func main() {
 			"patterns = optional prefix literal + 0..5 tokens (named / ?named / empty; occasional duplicate name, adjacent tokens, unclosed token, trailing junk, pattern soup) with literals of length 0..4 over {a,b,A,e-acute(2 bytes),%,space} (+ rare ; B E-acute { } ? Z [ @ z), 40% ASCII-only without '%', 20% ASCII with '%'; " +
 			"1..6 lines per pattern, each built from the pattern (fillers containing a partial/complete/next delimiter or the prefix, case-flipped literals, one delimiter or the prefix omitted, junk before/after) or arbitrary bytes / alphabet soup / empty; mode in {case-sensitive, ignore-case, both}; " +
 			"12% BYTEWISE cases: literals (leading, inner, trailing) drawn from {single ASCII byte, multi-byte rune (2/3/4 bytes), U+FFFD, a lone invalid byte ff/c3/80/fe, a truncated multi-byte prefix, mixtures of two or three of these}, 2..8 lines each built from noise over {latin-1 byte, stray continuation bytes, overlong / surrogate / out-of-range sequences, truncated prefixes, U+FFFD, valid runes, ASCII} placed before, between and after the literals, with a literal omitted or truncated in a third of the lines; mostly case-sensitive (the specification is bytewise: first occurrence of the literal's bytes); " +
-			"exhaustive sweep (every run): each ASCII byte b as a one-byte pattern x each ASCII byte c as the lines [c] and [c b], both modes (ignore-case matches at c iff lower(b)=lower(c)); " +
+			"exhaustive sweep (every run): each ASCII byte b as a one-byte pattern x each ASCII byte c as the lines [c] and [c b], ignore-case mode (matches at c iff lower(b)=lower(c)); " +
 			"10% BIT-0x20 cases (ignore-case or both): literals of 1..3 bytes over {@ ` [ { \\ | ] } ^ ~ _ DEL} + letters/space/digit/punctuation, lines in which the literal's 0x20-partner (all or some bytes flipped) stands at or before the real literal, the literal in the other letter case, or omitted; " +
 			"2 (quick) / 12 (thorough) sequences of >= 3000 lines on one instance with every result re-read after the last call; " +
 			"10% SEQUENCE cases: one compiled pattern, one instance, 8..60 lines with history (fresh / exact repeat of the previous or an earlier line / proper prefix or suffix of the previous (shorter) / previous plus text or doubled (longer) / same length with one byte changed), every returned slice re-read after the last call, each result compared with the model of that line alone; " +
@@ -1441,6 +1441,6 @@ func main() {
 			}
 			return c12Case(doc.Input), nil
 		},
-		Shard: 80,
+		Shard: 88,
 	})
 }
